@@ -43,7 +43,10 @@ NUMS = ["", "0", "1", "2", "7", "32", "100", "2147483647", "2147483648", "214748
         "-9223372036854775808", "-9223372036854775809", "-18446744073709551615", "-18446744073709551616",
         "+5", "+0", "+", "-", "+-5", "--5", "- 5", " 5", "  12", "\t8", "\n3", "5 ", "5\t", " ", "\t",
         "0x10", "0X1F", "1f", "x", "abc", "5x", "5.0", "1e3", "1,000", "007", "00", "0000000000000000000000012",
-        "10", "9", "64", "1024", "65536"]
+        "10", "9", "64", "1024", "65536",
+        # octal / hex / binary spellings (a base-0 conversion reads them differently or accepts them), near-limits
+        "010", "017", "08", "09", "0x", "0x7", "0b11", "0o7", "2147483646", "-2147483647", "1 2", "3\n", "+2147483647",
+        "+2147483648", "4294967298", "18446744073709551614"]
 VALID_NUMS = ["1", "2", "3", "7", "10", "32", "64", "100", "1024"]
 FLAGS_DSH = ["N", "b", "d", "S", "k"]
 FLAGS_PCP = ["N", "b", "d", "r", "p"]
@@ -56,22 +59,6 @@ RCMDS = ["rsh", "exec", "nosuch", "", "RSH", "exec ", "ssh", "rsh,exec"]
 
 def hx(s):
     return s.encode("latin1").hex() or "-"
-
-
-def optstrings_from_source():
-    src = open(os.path.join(REPO, "src", "pdsh", "opt.c")).read()
-    out = {}
-    for name in ("GEN_ARGS", "PCP_ARGS"):
-        m = re.search(r'#define\s+%s\s+"([^"]*)"' % name, src)
-        out[name] = m.group(1) if m else None
-    m = re.findall(r'#define\s+DSH_ARGS\s+"([^"]*)"', src)
-    out["DSH_ARGS"] = m[-1] if m else None       # the #else branch (no HAVE_MAGIC_RSHELL_CLEANUP)
-    return out
-
-
-def model_optstrings():
-    src = open(os.path.join(VERIF, "lean", "PdshVerif", "Opt", "Settings.lean")).read()
-    return {n: re.search(r'def %s : Str := "([^"]*)"' % n, src).group(1) for n in ("GEN_ARGS", "DSH_ARGS", "PCP_ARGS")}
 
 
 # --------------------------------------------------------------------------- cases
@@ -117,7 +104,7 @@ class Case:
         """text given for a setting on the command line (last occurrence) / in the environment"""
         if src == "c":
             vals = [v for l, v in self.opts if l == letter]
-            return vals[-1] if vals else None
+            return (vals[0] if getattr(self, "pick_first", False) else vals[-1]) if vals else None
         return self.env.get(ENVNAME.get(letter, ""), None)
 
 
@@ -292,6 +279,9 @@ class Real:
         for pers, b in self.bin.items():
             p = subprocess.run([b, "-L"], env={}, stdout=subprocess.PIPE, stderr=subprocess.PIPE)
             self.avail[pers] = re.findall(r"^Module: rcmd/(\S+)", p.stdout.decode(), re.M)
+        gen = open(os.path.join(VERIF, "lean", "PdshVerif", "Gen", "Dsh.lean")).read()
+        self.dflt_ctmo = int(re.search(r"def CONNECT_TIMEOUT : Nat := (\d+)", gen).group(1))
+        self.dflt_rcmd = {}
 
     def run(self, pers, argv, env, timeout=20, user=None):
         cmd = [self.bin[pers]] + argv
@@ -412,27 +402,155 @@ def load_replay(ctx):
     return c, k.get("kind", "q")
 
 
-DIAGNOSTICS = [("invalid-fanout", rb"Invalid fanout"), ("invalid-environment-variable", rb"Invalid environment variable"),
-               ("invalid-connect-timeout", rb"Invalid connect timeout"), ("invalid-command-timeout", rb"Invalid command timeout"),
-               ("username-too-long", rb"exceeds max username length"), ("no-such-rcmd-module", rb"No such rcmd module"),
-               ("failed-to-register-rcmd", rb"Failed to register rcmd"), ("host-spec-form", rb"not of form"),
-               ("no-remote-hosts", rb"no remote hosts specified"), ("connect-timeout-negative", rb"connect timeout must be"),
-               ("command-timeout-negative", rb"command timeout must be"), ("fanout-not-positive", rb"fanout must be"),
-               ("exec-with-t", rb"Cannot specify -t"), ("usage", rb"Usage: "), ("invalid-option", rb"invalid option"),
-               ("pcp-needs-operands", rb"requires source and dest"), ("target-is-directory", rb"target is directory can only"),
-               ("pcp-server-rules", rb"with pcp server|pcp server and pcp client"), ("pcp-client-rules", rb"pcp client")]
-OPTIONAL_DIAGNOSTICS = {"invalid-option"}      # getopt's own message (opterr), glibc wording
+# ---- refusals are classified by WHAT IS WRONG WITH THE INPUT (a syntactic feature of the generated case), never by the
+# wording of the message: a refusal is `exit != 0` (before anything is contacted: -q / the trace file of the real runs)
+# plus a diagnostic on stderr; whether the diagnostic names the offending option, variable, setting or value is recorded
+NUMRX = re.compile(r"^[ \t\n\v\f\r]*([+-]?[0-9]+)$")
+NUMERIC = (("f", "FANOUT", 1, ("fanout",)), ("t", "PDSH_CONNECT_TIMEOUT", 0, ("connect", "timeout")),
+           ("u", "PDSH_COMMAND_TIMEOUT", 0, ("command", "timeout")))
+REQUIRED_KINDS = (["%s:%s:%s" % (src, l, k) for src in ("cmdline", "env") for l in "ftu"
+                   for k in ("not-a-number", "out-of-range", "too-small")] +
+                  ["cmdline:l:over-long", "cmdline:R:unknown", "env:R:unknown", "wcoll:user:over-long", "wcoll:rcmd:unknown",
+                   "wcoll:malformed", "no-targets", "unknown-option", "missing-argument", "usage", "exec:connect-timeout",
+                   "pcp:operands"])
+
+
+def denotes(t):
+    m = NUMRX.match(t)
+    return int(m.group(1)) if m else None
+
+
+def bad_tags(c, real, optstr):
+    """[(kind, words a diagnostic could name)]: everything about the case that cannot work / is not a proper command line"""
+    tags = []
+    letters = [l for l, _ in c.opts]
+    last = lambda l: c.text(l, "c")
+    for l, var, lo, nouns in NUMERIC:
+        for src, texts in (("cmdline", [v for x, v in c.opts if x == l]), ("env", [c.env[var]] if var in c.env else [])):
+            for i, t in enumerate(texts):
+                v = denotes(t)
+                names = ("-" + l, var if src == "env" else "-" + l, t) + nouns
+                if v is None:
+                    tags.append(("%s:%s:not-a-number" % (src, l), names))
+                elif not -2 ** 31 <= v < 2 ** 31:
+                    tags.append(("%s:%s:out-of-range" % (src, l), names))
+                elif v < lo and i == len(texts) - 1 and (src == "cmdline" or last(l) is None):
+                    tags.append(("%s:%s:too-small" % (src, l), names))
+    for x, v in c.opts:
+        if x == "l" and len(v) > real.lmax:
+            tags.append(("cmdline:l:over-long", ("-l", "user", v)))
+    avail = real.avail[c.pers]
+    rc_, re_ = last("R"), c.env.get("PDSH_RCMD_TYPE")
+    chosen = rc_ if rc_ is not None else re_
+    if chosen is not None and chosen not in avail:
+        tags.append(("%s:R:unknown" % ("cmdline" if rc_ is not None else "env"), ("-R", "PDSH_RCMD_TYPE", "rcmd", "module", chosen)))
+    ws = getattr(c, "wspec", None)
+    if ws:
+        if any(len(u) > real.lmax for u in ws["users"]):
+            tags.append(("wcoll:user:over-long", ("user", "-w")))
+        if any(t not in avail for t in ws["types"]):
+            tags.append(("wcoll:rcmd:unknown", ("rcmd", "module", "-w") + tuple(t for t in ws["types"] if t and t not in avail)))
+        if ws["malformed"]:
+            tags.append(("wcoll:malformed", ("host", "-w", "form")))
+    if "w" not in letters:
+        tags.append(("no-targets", ("host", "-w", "target")))
+    known = optstr["dsh" if c.pers == "dsh" else "pcp"]
+    if any(l not in known.replace(":", "") or l == ":" for l in letters):
+        tags.append(("unknown-option", ("option", "usage")))
+    if getattr(c, "_drop_last", False):
+        tags.append(("missing-argument", ("option", "argument", "usage")))
+    if "h" in letters:
+        tags.append(("usage", ("usage",)))
+    if any(l in "cI" for l in letters):
+        tags.append(("unhandled-option", ("usage",)))
+    ct = last("t") if last("t") is not None else c.env.get("PDSH_CONNECT_TIMEOUT")
+    if (chosen == "exec" or (chosen is None and getattr(real, "dflt_rcmd", {}).get(c.pers) == "exec")) and ct is not None \
+            and "exec" in avail and denotes(ct) is not None and denotes(ct) != real.dflt_ctmo:
+        tags.append(("exec:connect-timeout", ("-t", "exec", "timeout")))
+    if c.pers != "dsh":
+        if any(l in "zZy" for l in letters):
+            tags.append(("pcp:modes", ("pcp", "server", "client", "directory")))
+        elif len(c.operands) < 2:
+            tags.append(("pcp:operands", ("source", "dest", "file", "usage")))
+    return tags
+
+
+def names_offender(err_, names):
+    e = (err_ or b"").decode("latin1").lower()
+    return any(n and n.strip() and n.lower() in e for n in names)
 
 
 def generated_table():
-    """option letters (present in this build's option strings / absent, e.g. -s on AIX only) and variables of the
-    settings table that harness/consts/optable.c reads off opt.c"""
+    """the settings table that harness/consts/optable.c derives from the behaviour of the opt.c under test: option
+    strings, rows (letter | variable, opt_t member, behaviour class)"""
     src = open(os.path.join(VERIF, "lean", "PdshVerif", "Gen", "Optable.lean")).read()
-    strs = "".join(re.search(r'def OT_%s : String := "([^"]*)"' % n, src).group(1) for n in ("GEN_ARGS", "DSH_ARGS", "PCP_ARGS"))
+    st = {n: re.search(r'def OT_%s : String := "([^"]*)"' % n, src).group(1) for n in ("GEN_ARGS", "DSH_ARGS", "PCP_ARGS")}
+    strs = "".join(st.values())
     rows = lambda name: re.findall(r'\("([^"]*)", "([^"]*)", "([^"]*)"\)', re.search(r"def %s : .*" % name, src).group(0))
     letters = {r[0] for r in rows("OT_OPTS")} | {r[0] for r in rows("OT_EARLY")} | set(strs.replace(":", ""))
     return {"letters": {l for l in letters if l in strs}, "absent": {l for l in letters if l not in strs},
-            "env": [r[0] for r in rows("OT_ENVS")]}
+            "env": [r[0] for r in rows("OT_ENVS")], "opts": rows("OT_OPTS"), "early": rows("OT_EARLY"), "envs": rows("OT_ENVS"),
+            "optstr": {"dsh": st["GEN_ARGS"] + st["DSH_ARGS"], "pcp": st["GEN_ARGS"] + st["PCP_ARGS"]}}
+
+
+VALUED = ("string_to_int", "atoi", "strdup", "bounded_text")
+TABLE_VALUES = {"fanout": ("3", "5", "7"), "connect_timeout": ("4", "6", "8"), "command_timeout": ("9", "11", "13"),
+                "ruser": ("alice", "bob", "carol"), "remote_program_path": ("/c1/pdcp", "/c2/pdcp", "/env/pdcp")}
+
+
+def gen_table_cases(tab, real):
+    """deterministic, driven by the GENERATED table: for every valued setting (a letter that takes an argument and sets
+    an opt_t member, with the variable that sets the same member if there is one) and every personality that has the
+    letter: absent / command line only / variable only / both / twice on the command line (both orders) / twice plus
+    variable / valid command line over a hostile variable; for every flag letter: once, twice"""
+    out = []
+    var_of = {f: v for v, f, cv in tab["envs"] if cv in VALUED}
+    settings = [(l, f) for l, f, cv in tab["opts"] + tab["early"] if cv in VALUED and f != "misc_modules"]
+    for f, v in var_of.items():
+        if not any(f == f2 for _, f2 in settings) and f != "misc_modules":
+            settings.append((None, f))
+    for pers in ("dsh", "pdcp", "rpdcp"):
+        ostr = tab["optstr"]["dsh" if pers == "dsh" else "pcp"]
+        avail = real.avail[pers]
+        for l, f in settings:
+            var = var_of.get(f)
+            if f == "rcmd_name":
+                good = [a for a in ("exec", "rsh") if a in avail] or avail[:1]
+                if not good:
+                    continue
+                v1, v2, ve = good[0], good[-1], good[-1]
+                hostile = "nosuch"
+            else:
+                v1, v2, ve = TABLE_VALUES.get(f, ("7", "8", "9"))
+                hostile = "x" if f in ("fanout", "connect_timeout", "command_timeout") else "nosuch"
+            has = l is not None and l in ostr
+            pats = [([], {})]
+            if has:
+                pats += [([(l, v1)], {}), ([(l, v1), (l, v2)], {}), ([(l, v2), (l, v1)], {}), ([(l, v1), (l, v1)], {})]
+                if f == "rcmd_name":
+                    pats += [([(l, "nosuch"), (l, v2)], {}), ([(l, v1), (l, "nosuch")], {})]
+            if var:
+                pats += [([], {var: ve})]
+                if has:
+                    pats += [([(l, v1)], {var: ve}), ([(l, v1), (l, v2)], {var: ve}), ([(l, v1)], {var: hostile}),
+                             ([(l, hostile)], {var: ve})]
+            for opts, env in pats:
+                for front in (True, False):
+                    o = (opts + [("w", "foo"), ("q", None)]) if front else ([("w", "foo"), ("q", None)] + opts)
+                    c = Case(pers, o, dict(env), operands_for(pers, real.files))
+                    c.group = "table"
+                    out.append(c)
+                    if not opts:
+                        break
+        for l, f, cv in tab["opts"]:
+            if cv in VALUED or l not in ostr or ostr[ostr.index(l) + 1:ostr.index(l) + 2] == ":" or l in "wq":
+                continue
+            for n in (1, 2):
+                c = Case(pers, [("w", "foo"), ("q", None)] + [(l, None)] * n, {}, operands_for(pers, real.files),
+                         oracle=l in (FLAGS_DSH if pers == "dsh" else FLAGS_PCP))
+                c.group = "table"
+                out.append(c)
+    return out
 
 
 def rank_from_gen():
@@ -523,10 +641,49 @@ def run(ctx):
                     c = gen_single(pers, letter, src, v, real.files)
                     c.group = "single"
                     cases.append(c)
-        for v in ["u" * n for n in (0, 1, 16, 17, 254, 255, 256, 257, 258, 300, 5000)]:
-            c = gen_single("dsh", "l", "c", v, real.files)
-            c.group = "single"
+        L = real.lmax
+        for pers in ("dsh", "pdcp"):
+            for v in ["u" * n for n in sorted({0, 1, 16, 17, L - 2, L - 1, L, L + 1, L + 2, L + 44, 5000, 70000})]:
+                c = gen_single(pers, "l", "c", v, real.files)
+                c.group = "single"
+                cases.append(c)
+        # values given per target, deterministically: user@ at the limit, unknown / empty / loaded transport, malformed
+        for pers in ("dsh", "pdcp"):
+            for ty, us, malformed in ([(None, "u" * n, False) for n in (L - 1, L, L + 1, L + 2)] +
+                                      [("nosuch", None, False), ("", None, False), ("rsh", None, False), ("rsh", "bob", False),
+                                       ("nosuch", "u" * (L + 1), False), (None, None, True)]):
+                w = "bob@rsh:foo" if malformed else ((ty + ":" if ty is not None else "") + (us + "@" if us is not None else "") + "foo")
+                c = Case(pers, [("w", w), ("q", None)], {}, operands_for(pers, real.files))
+                c.wspec = {"types": [ty] if ty is not None and not malformed else [],
+                           "users": [us] if us is not None and not malformed else [], "malformed": malformed}
+                c.group = "wcoll"
+                cases.append(c)
+        tab = generated_table()
+        for pers in real.avail:
+            real.dflt_rcmd[pers] = default_rcmd(real, pers, rank)
+        cases += gen_table_cases(tab, real)
+        # structurally bad command lines, one kind each
+        for pers in ("dsh", "pdcp"):
+            for opts, ops, drop in (([("q", None)], None, False), ([("w", "foo"), ("q", None), ("J", None)], None, False),
+                                    ([("w", "foo"), ("q", None), ("h", None)], None, False),
+                                    ([("w", "foo"), ("q", None), ("f", "")], [], True),
+                                    ([("w", "foo"), ("q", None), ("c", None)], None, False),
+                                    ([("w", "foo"), ("q", None), ("I", "x")], None, False)):
+                c = Case(pers, opts, {}, operands_for(pers, real.files) if ops is None else ops, oracle=False, struct_ok=False)
+                if drop:
+                    c._drop_last = True
+                c.group = "syntax"
+                cases.append(c)
+        for n in (0, 1):
+            c = Case("pdcp", [("w", "foo"), ("q", None)], {}, operands_for("pdcp", real.files)[:n], oracle=False, struct_ok=False)
+            c.group = "syntax"
             cases.append(c)
+        for t in ("5", "0", "11"):
+            for src in "ce":
+                c = Case("dsh", [("w", "foo"), ("q", None), ("R", "exec")] + ([("t", t)] if src == "c" else []),
+                         {"PDSH_CONNECT_TIMEOUT": t} if src == "e" else {}, ["true"])
+                c.group = "single"
+                cases.append(c)
         for v in RCMDS:
             for src in "ceb":
                 for pers in ("dsh", "pdcp"):
@@ -542,11 +699,18 @@ def run(ctx):
             cases.append(c)
         # (C) all orders of <= 4 options
         order_groups = []
-        for gi in range(25 if quick else 400):
+        pinned_orders = [("dsh", [("f", "3"), ("t", "4"), ("u", "9"), ("l", "alice")], {}),
+                         ("dsh", [("R", "rsh"), ("f", "5"), ("S", None), ("N", None)], {"FANOUT": "7", "PDSH_RCMD_TYPE": "exec"}),
+                         ("dsh", [("t", "4"), ("u", "9"), ("b", None)], {"PDSH_COMMAND_TIMEOUT": "13"}),
+                         ("pdcp", [("e", "/c1/pdcp"), ("f", "3"), ("r", None), ("p", None)], {"PDSH_REMOTE_PDCP_PATH": "/env/pdcp"}),
+                         ("rpdcp", [("e", "/c1/pdcp"), ("l", "bob"), ("u", "9")], {"FANOUT": "7"})]
+        for gi in range(len(pinned_orders) + (25 if quick else 400)):
             pers = rng.choice(["dsh", "dsh", "pdcp"])
             letters = rng.sample(["f", "t", "u", "l", "R", "N", "b"] + (["e"] if pers != "dsh" else ["S"]), rng.choice([2, 3, 4]))
             opts = [(l, gen_value(rng, l, 1.0) if l in "ftulRe" else None) for l in letters]
             env = {ENVNAME[l]: gen_value(rng, l, 1.0) for l in "ftuR" if rng.random() < 0.4}
+            if gi < len(pinned_orders):
+                pers, opts, env = pinned_orders[gi]
             grp = []
             for perm in itertools.permutations(opts):
                 c = Case(pers, [("w", "foo"), ("q", None)] + list(perm), env, operands_for(pers, real.files))
@@ -582,7 +746,7 @@ def run(ctx):
         # oracle domain: every setting option at most once, nothing structurally odd
         for c in cases:
             letters = [l for l, _ in c.opts if l in "ftulRMe"]
-            if len(letters) != len(set(letters)):
+            if len(letters) != len(set(letters)) and c.group != "table":
                 c.oracle = False
         argvs = []
         for c in cases:
@@ -654,6 +818,12 @@ def run(ctx):
                 cov["samples"].append({"pers": c.pers, "env": c.env, "argv": a, "exit": rc, "dump": d, "spec": sp})
             # oracle
             if c.oracle and o is not None:
+                if sp != "ok" and c.group == "table" and len({l for l, _ in c.opts}) < len(c.opts):
+                    # a setting given twice: the text says "the value given on the command line" -- the first or the last
+                    # occurrence may be meant (the code takes the last; the model says so): judged against both
+                    c.pick_first = True
+                    sp = ctx.model("opt", spec_line(real, c, o, rank) + "\n", args=["spec"])[0]
+                    c.pick_first = False
                 if sp != "ok":
                     for clause in sp.split(" "):
                         if clause == "rejected-valid" and ("d", None) in c.opts:
@@ -681,6 +851,16 @@ def run(ctx):
         # (E) module selection (uid 1000, PDSH_MODULE_DIR = the conflicting test modules A and B)
         if moddir:
             mcases = []
+            # deterministic: module selection absent / command line only / variable only / both / twice (both orders)
+            for mo, me in (([], None), (["A"], None), (["B"], None), ([], "B"), ([], "A"), (["A"], "B"), (["B"], "A"),
+                           (["A", "B"], None), (["B", "A"], None), (["A", "B"], "A"), (["B", "A"], "B"), (["nosuch,B"], "A"),
+                           ([], "nosuch,B"), (["B,A"], None), (["A,B"], "B")):
+                for front in (True, False):
+                    o = [("M", m) for m in mo]
+                    o = (o + [("w", "foo"), ("N", None)]) if front else ([("N", None), ("w", "foo")] + o)
+                    c = Case("dsh", o, {"PDSH_MISC_MODULES": me} if me is not None else {}, ["true"])
+                    c.oracle = len(mo) <= 1
+                    mcases.append(c)
             for _ in range(60 if quick else 1200):
                 opts = [("w", "foo")]
                 for _i in range(rng.choice([0, 1, 1, 1, 2])):
@@ -822,28 +1002,35 @@ def run(ctx):
             if moddir:
                 groups += [(mcases, mres), (qcases, qres)]
             hit = {"dsh": set(), "pdcp": set(), "rpdcp": set()}
-            envhit, diag = set(), {}
+            envhit, kinds = set(), {}
             for cs_, rs_ in groups:
                 for c, (rc, out, err_) in zip(cs_, rs_):
                     hit[c.pers].update(l for l, _ in c.opts)
                     envhit.update(c.env)
-                    for kind, pat in DIAGNOSTICS:
-                        if re.search(pat, err_ or b""):
-                            diag[kind] = diag.get(kind, 0) + 1
-            tab = generated_table()
+                    tags = bad_tags(c, real, tab["optstr"])
+                    for kind, names in tags:
+                        k = kinds.setdefault(kind, {"cases": 0, "alone": 0, "refused_with_diagnostic": 0, "names_offender": 0})
+                        k["cases"] += 1
+                        if len(tags) == 1:
+                            k["alone"] += 1
+                            if rc is not None and rc > 0 and (err_ or b"").strip():
+                                k["refused_with_diagnostic"] += 1
+                                k["names_offender"] += 1 if names_offender(err_, names) else 0
             allhit = set().union(*hit.values())
             dist["options_hit"] = {k: "".join(sorted(v)) for k, v in hit.items()}
             dist["env_hit"] = sorted(envhit)
-            dist["diagnostics_hit"] = diag
+            dist["refusal_kinds"] = kinds
             dist["table_letters"] = "".join(sorted(tab["letters"]))
-            dist["table_letters_not_in_this_build"] = "".join(sorted(tab["absent"]))
             dist["table_env"] = sorted(tab["env"])
             missing = sorted(tab["letters"] - allhit)
             missing_env = sorted(set(tab["env"]) - envhit)
-            missing_diag = [k for k, _ in DIAGNOSTICS if k not in diag and k not in OPTIONAL_DIAGNOSTICS]
-            if missing or missing_env or missing_diag:
-                ctx.broken.append(("C-BROKEN", "generator coverage", "not hit in this run: option letters %s, variables %s, "
-                                   "diagnostics %s (table generated from opt.c)" % (missing, missing_env, missing_diag)))
+            # a kind counts as covered when a case whose ONLY defect is of that kind was generated (what the code under
+            # test then did with it is the oracle's business, not the generator's)
+            missing_kinds = [k for k in REQUIRED_KINDS if kinds.get(k, {}).get("alone", 0) == 0]
+            if missing or missing_env or missing_kinds:
+                ctx.broken.append(("C-BROKEN", "generator coverage", "not generated in this run: option letters %s, variables %s, "
+                                   "kinds of bad value %s (table derived from the behaviour of opt.c)"
+                                   % (missing, missing_env, missing_kinds)))
     cov["distribution"] = dist
     cov["traces_validated_against_impl"] = cov["evaluations"]
     return ctx.finish(
